@@ -65,13 +65,13 @@ seq_t dtw_distance{{ suffix }}{{ suffix2 }}(seq_t *s1, idx_t l1,
         {%- else %}
         max_dist = ub_euclidean{{ suffix2 }}(s1, l1, s2, l2);
         {%- endif %}
+        if (settings->only_ub) {
+            return max_dist;
+        }
         {%- if "euclidean" == inner_dist %}
         {%- else %}
         max_dist = pow(max_dist, 2);
         {%- endif %}
-        if (settings->only_ub) {
-            return max_dist;
-        }
     } else if (max_dist == 0) {
         max_dist = INFINITY;
     {%- if "euclidean" == inner_dist %}
